@@ -51,7 +51,7 @@ PROPS = {
               'the response time; no dequeued command is dropped silently.',
               ['convergence itself: leader election within bounded timeouts, catch-up, equality of replicas (liveness in virtual time)'],
               'CFG reachability (wedge detection), reply-combination table agreement'),
-    'C06': _p(['R-durable-before-ack', 'R-ack-after-store', 'R-dump-before-trim', 'R-restart-keeps-journal', 'R-log-owners', 'R-head-drop-atomic', 'R-write-then-publish', 'R-tail-drop-monotone'],
+    'C06': _p(['R-durable-before-ack', 'R-ack-after-store', 'R-dump-before-trim', 'R-restart-keeps-journal', 'R-log-owners', 'R-head-drop-atomic', 'R-write-then-publish', 'R-tail-drop-monotone', 'R-commit-persisted-value', 'R-dump-atomic'],
               'positive ack only after the journal add that reaches the file write and publish; serializer SUCCESS (which triggers the trim) only after the atomic rename / clean '
               'child exit; at start-up the journal is replaced only when it does not contain the dump position and a kept journal is trimmed exactly to it; head drop atomicity.',
               ['equality of the rebuilt object with a replay of the committed prefix', 'kill points inside mmap stores'],
@@ -66,7 +66,7 @@ PROPS = {
               'stores and publishes the final offset; sibling journals implement the same interface and every mutator updates mirror and file.',
               ['equality with an in-memory list for all operation sequences (byte-level round trip)', 'head drop kill-safety (known finding)'],
               'ordering on CFGs, must-facts for the bounded write, table agreement against struct.calcsize, sibling cross-check'),
-    'C09': _p(['R-payload-complete', 'R-version-in-payload', 'R-no-field-leak', 'R-snapshot-point', 'R-dump-atomic', 'R-version-pairing', 'R-transfer-restart', 'R-transfer-flags'],
+    'C09': _p(['R-payload-complete', 'R-version-in-payload', 'R-no-field-leak', 'R-snapshot-point', 'R-dump-atomic', 'R-version-pairing', 'R-transfer-restart', 'R-transfer-flags', 'R-dump-before-trim'],
               'payload components and the positions the loader reads them from; enabled version inside the payload in every serializer mode; no internal attribute leaks into the payload; '
               'no apply between fixing the position and serializing; dump only ever renamed into place; name table rebuilt for the enabled version; interrupted transfers restart.',
               ['pickle round-trip equality of user state', 'chunk reassembly under every interruption pattern'],
